@@ -358,13 +358,7 @@ fn check_alt(input: &AltIn, case: &mut Case) -> Result<(), Fail> {
 /// the same framing and writer oracles; the model is what the parsed packet shows
 fn check_reparsed(input: &super::c11::In, case: &mut Case) -> Result<(), Fail> {
     let m = super::c11::render(input);
-    let pk = match parse(&m)? {
-        Ok(p) => p,
-        Err(_) => {
-            case.class("rejected");
-            return Ok(());
-        }
-    };
+    let Some(pk) = parse_if_accepted(&m, case) else { return Ok(()) };
     let model = lib("observe", || observe(&pk))?;
     case.nontrivial = model.records().count() >= 2;
     let u = ser_plain(&pk).map_err(|f| Fail::new("c04:plain-failed", f.msg))?;
